@@ -45,6 +45,9 @@ type memConn struct {
 	parkID string
 	// share: hands an id from one scripted client to a second one
 	share chan uuid.UUID
+	// settle: a scripted client tells the oracle that it is about to settle these
+	// (from then on they do not count as outstanding)
+	settle func(ids ...uuid.UUID)
 }
 
 // release lets a parked Send return; reports whether one was parked.
